@@ -33,9 +33,22 @@ def handle (j : Json) : R (List (String × Json)) := do
     -- what an operator history ends in: partition only (pins and relation exemptions of histories are judged by C04)
     let ophist := (fldD j "k" Json.null) == Json.str "ophist"
     if ophist then
+      -- every solution of the history (one per step), not only the last one
+      let stepsJ := match impl.getObjVal? "step_solutions" with | .ok (Json.arr a) => a.toList | _ => []
+      let mut bad : List String := []
+      let mut judged := 0
+      for st in stepsJ do
+        match parseSolution (fldD st "solution" Json.null) with
+        | .ok s2 =>
+          judged := judged + 1
+          let e := Spec.partition p s2
+          if !e.isEmpty && bad.isEmpty then
+            bad := e.map (fun m => s!"after {(fldD st "op" Json.null).compress}: {m}")
+        | .error _ => pure ()
+      let all := if bad.isEmpty then pa else bad
       return [("model", Json.null),
-              ("oracle", Json.mkObj [("partition", Json.bool pa.isEmpty)]),
-              ("info", Json.mkObj [("operator_history", Json.bool true), ("partition", strs pa),
+              ("oracle", Json.mkObj [("partition", Json.bool all.isEmpty)]),
+              ("info", Json.mkObj [("operator_history", Json.bool true), ("partition", strs all), ("steps_judged", jNat judged),
                                    ("tours", jNat s.tours.length), ("unassigned", jNat s.unassigned.length)])]
     if clustered then
       return [("model", Json.null),
